@@ -118,8 +118,20 @@ def load_known():
 def run_property(pid, tier="quick", replay=None, fact_dirs=None, quiet=False, write_evidence=True):
     """returns (exit_code, ctx, unexpected violations)"""
     t0 = time.time()
-    mod = importlib.import_module("rules." + pid)
     ctx = Ctx(pid, tier, fact_dirs)
+
+    class _Broken:  # a rule module that does not even import: fail closed with a report instead of a traceback
+        EXPLANATION, DECIDED, NOT_DECIDED = "rule module failed to load", [], []
+
+        def __init__(self, err):
+            self.err = err
+
+        def run(self, c):
+            c.anchor_lost("runner", "rule module rules/%s.py failed to load: %s" % (pid, self.err))
+    try:
+        mod = importlib.import_module("rules." + pid)
+    except Exception as e:
+        mod = _Broken("%s: %s" % (type(e).__name__, e))
     try:
         mod.run(ctx)
     except AnchorLost:
